@@ -1,0 +1,13 @@
+//go:build verif && !((linux || darwin || dragonfly || freebsd || netbsd || solaris) && (amd64 || arm64 || mips64x || ppc64 || ppc64le || loong64 || s390x))
+
+package starlark
+
+// Hooks for the C10 check on platforms that use int_generic.go: there is only one representation.
+
+func VerifDisableSmallInts() bool { return false }
+
+// VerifIntArm reports which arm of the union holds i (true = *big.Int arm), as get() sees it.
+func VerifIntArm(i Int) bool {
+	_, big := i.get()
+	return big != nil
+}
